@@ -76,6 +76,7 @@ def regenerate():
 
 
 def ensure_makefile():
+    sh([sys.executable, os.path.join(VERIF, "tools", "gen_coqproject.py")], timeout=60)
     mk = os.path.join(COQ, "Makefile")
     cp = os.path.join(COQ, "_CoqProject")
     if not os.path.exists(mk) or os.path.getmtime(mk) < os.path.getmtime(cp):
